@@ -220,7 +220,17 @@ def m1_cmdseq(ctx: Any, prog: Program) -> None:
     ok = 'header = file.read(len(SEQ_HEADER))' in src_p and 'file.write(SEQ_HEADER)' in src_w
     ctx.shape('C20.M1', ok, mod, wf, 'command sequence header constant written and compared', func='write', text='cmdseq header')
     import struct as _struct
-    wver = [c.args[1].value for c in ast.walk(wf) if isinstance(c, ast.Call) and dotted(c.func) == 'pack' and len(c.args) == 2 and isinstance(c.args[0], ast.Constant) and c.args[0].value == 'f' and isinstance(c.args[1], ast.Constant)]
+    def _numconst(e: ast.AST) -> Any:
+        if isinstance(e, ast.Constant) and isinstance(e.value, (int, float)):
+            return e.value
+        if isinstance(e, ast.Name):
+            try:
+                v_ = fold.global_(e.id)
+            except Exception:
+                return None
+            return v_ if isinstance(v_, (int, float)) else None
+        return None
+    wver = [_numconst(c.args[1]) for c in ast.walk(wf) if isinstance(c, ast.Call) and dotted(c.func) == 'pack' and len(c.args) == 2 and isinstance(c.args[0], ast.Constant) and c.args[0].value == 'f' and _numconst(c.args[1]) is not None]
     sel: List[Tuple[ast.AST, ast.AST, ast.AST]] = []          # (test, value if true, value if false)
     for n in ast.walk(pf):
         if isinstance(n, ast.If) and len(n.body) == 1 and len(n.orelse) == 1 and all(isinstance(b, ast.Assign) and dotted(b.targets[0]) == 'cmd_struct' for b in (n.body[0], n.orelse[0])):
